@@ -132,7 +132,7 @@ def _conv(ctx, p, rng):
     cls = (D, P, kind, shp)
     data = _vals(rng, (D, P) + shp, kind)
     # --- base point + directions <-> polynomial (all directions share the base point by construction of the format)
-    if kind != 'complex':
+    if True:          # complex coefficients are values like any other (the helpers used to drop the imaginary part)
         d2 = data.copy()
         for pp in range(P):
             d2[0, pp] = d2[0, 0]
@@ -168,23 +168,23 @@ def _conv(ctx, p, rng):
         ctx.violation('utpm2dirs:layout', {'D': D, 'P': P, 'shape': shp}); return
     ctx.ok('utpm2dirs', ('u2d',) + cls, exact=True)
     # --- shift by s then -s on the retained part
-    for s in range(-(D - 1), D):
+    for s in range(-(2 * D + 1), 2 * D + 2):          # also shifts by D and more: nothing is retained, everything is zero
         if s == 0:
             continue
         u = UTPM(data.copy())
         a = u.shift(s)
         ref = np.zeros_like(data)
-        if s > 0:
+        if 0 < s < D:
             ref[s:] = data[:-s]
-        else:
+        elif -D < s < 0:
             ref[:s] = data[-s:]
         b = a.shift(-s)
-        keep = slice(0, D - s) if s > 0 else slice(-s, D)
+        keep = (slice(0, D - s) if s > 0 else slice(-s, D)) if abs(s) < D else slice(0, 0)
         if not (_same(a.data, ref) and _same(b.data[keep], data[keep]) and _same(u.data, data)):
             ctx.violation('shift:%s' % ('positive' if s > 0 else 'negative'), {'D': D, 'P': P, 'shape': shp, 's': s}); return
         ctx.ok('shift', ('shift',) + cls + (s,), exact=True)
     # --- nested containers of polynomials <-> one polynomial indexed element-wise
-    if kind != 'complex':
+    if True:
         for cshape in [(2,), (2, 2), (1, 3)]:
             elems = np.empty(cshape, dtype=object)
             raw = {}
@@ -245,7 +245,7 @@ def _conv(ctx, p, rng):
             ctx.violation('ndarray2utpm:numbers-in-container:value', {'D': D, 'P': P, 'vals': kind}); return
         ctx.ok('ndarray2utpm', ('ndarray2utpm', 'numbers-in-container') + cls, exact=True)
     # --- combine_blocks vs numpy.block per slice
-    if len(shp) == 2 and kind != 'complex':
+    if len(shp) == 2:
         r1, c1 = shp
         r2, c2 = int(rng.integers(1, 3)), int(rng.integers(1, 3))
         B = [[_vals(rng, (D, P, r1, c1), kind), _vals(rng, (D, P, r1, c2), kind)],
@@ -260,6 +260,11 @@ def _conv(ctx, p, rng):
         for r_ in range(2):
             for c_ in range(2):
                 blocks[r_, c_] = UTPM(B[r_][c_].copy())
+        if P > 1 and kind in ('random', 'complex') and rng.random() < 0.6:
+            # a block that is the same in all directions given with one direction (a constant block next to seeded ones)
+            r_, c_ = int(rng.integers(2)), int(rng.integers(2))
+            B[r_][c_][:, 1:] = B[r_][c_][:, :1]
+            blocks[r_, c_] = UTPM(B[r_][c_][:, :1].copy())
         y = UTPM.combine_blocks(blocks)
         ok = y.data.shape == (D, P, r1 + r2, c1 + c2)
         if ok:
